@@ -16,7 +16,7 @@ import (
 )
 
 func init() {
-	Register(&Scenario{Prop: "C04", Name: "tampered-entries", Run: scenC04, Weight: 1,
+	Register(&Scenario{Prop: "C04", Name: "tampered-entries", Run: scenC04, SoftParks: true, Weight: 1,
 		Rule: "honest writer W, receiver R, adversary (listed as a colluding writer in half of the runs); W writes 2-5 entries, R replicates all or some; then 3-8 (thorough 3-16) attempts, each one valid entry of W's log with ONE wire field mutated {payload, clock.time, clock.id, next, refs, v, key, sig, identity.id, identity.publicKey, identity.signatures, identity.type, log id, claimed hash} or an entry of another database written by W, delivered (a) as a head claiming the original hash, (b) as a head claiming the recomputed address, (c) stored under its true address and referenced as predecessor by a valid entry of the colluding writer; by topic announcement, direct channel or manual Sync; oracle at every quiescent step: an injected entry that is invalid (claimed hash != address of its re-encoding, or a signed field / key / signature changed, or foreign log id) is in no honest replica's entry set, total order or head set under either hash, and the order of previously held entries is unchanged; non-trivial = >=3 attempts covering >=2 delivery modes reached a replica holding >=2 valid entries"})
 }
 
